@@ -194,8 +194,10 @@ macro_rules! Header {
                 self.get(name)
             }
             pub fn get(&self, name: &str) -> Option<&str> {
-                let value = self.custom.as_ref()?
-                    .get(&Slice::from_bytes(name.as_bytes()))
+                // (a request without any custom header has no `custom` map:
+                // that must not hide the standard headers)
+                let value = self.custom.as_ref()
+                    .and_then(|custom| custom.get(&Slice::from_bytes(name.as_bytes())))
                     .or_else(|| {
                         let standard = Header::from_bytes(name.as_bytes())?;
                         unsafe {self.standard.get(standard as usize)}
